@@ -149,31 +149,31 @@ theorem restoreW_get (locals : List Var) (w1 w3 : World) (x : Nat) :
 
 theorem frame_spill_core {cx : Ctx} {X : MCtx} {f cb k nArgs : Nat} {crv cov : Bool} {slots : List Nat}
     {locals : List Var} {st σ : List Val} {ic bcs} {w1 : World}
-    (hne : slots ≠ []) (hnd : slots.Nodup) (h256 : ∀ s ∈ slots, s < 256)
-    (hset : ∀ x, x ∈ locals ↔ x ∈ slots) (hlen : st.length = nArgs)
+    (hne : slots ≠ []) (hnd : slots.Nodup) (h256 : ∀ s ∈ slots, s < 256) (hsi : ∀ s ∈ slots, s ∉ X.ign)
+    (hset : ∀ x, x ∉ X.ign → (x ∈ locals ↔ x ∈ slots)) (hlen : st.length = nArgs)
     (hb : X.G[cb]? = some { ops := spillBefore slots nArgs cov ++ [.callsub (subLabel f)] ++ spillAfter slots nArgs crv cov,
                             succ := .next k }) :
     CallFrame cx X cb k f (if crv then 1 else 0) locals st σ ic bcs w1 := by
   refine ⟨_, (spillBefore slots nArgs cov).length,
     (slots.map (getSlot w1.scratch)).reverse ++ ((if cov then [] else st) ++ σ), hb, by simp, ?_, ?_⟩
   · -- `before`
-    intro wm hw hm
+    intro wm hw hinv hm
     have hm' : st.length + σ.length ≤ maxStack := by simpa [MCtx.st] using hm
     have hmap : slots.map (getSlot wm.scratch) = slots.map (getSlot w1.scratch) :=
-      List.map_congr_left (fun s _ => (hw.1 s).symm)
+      List.map_congr_left (fun s hs => (hw.1 s (hsi s hs)).symm)
     by_cases hd : σ.length + st.reverse.length + slots.length + (if cov then 0 else st.reverse.length) ≤ maxStack
     · have h1 := before_ok cx ⟨st ++ σ, ic, bcs, wm⟩ wm.scratch slots cov st.reverse σ hne h256 hd
       simp only [List.reverse_reverse, List.length_reverse, hlen, hmap] at h1
       have h2 := run_opsP_ok (cx := cx) (X := X) hb _ [] (Instr.callsub (subLabel f) :: spillAfter slots nArgs crv cov)
         _ _ (by simp) h1
       simp only [List.length_nil, Nat.zero_add] at h2
-      exact .inr ⟨wm, hw, h2⟩
+      exact .inr ⟨wm, hw, hinv, h2⟩
     · have h1 := before_ovf cx ⟨st ++ σ, ic, bcs, wm⟩ wm.scratch slots cov st.reverse σ hne h256 (by simp; omega) hd
       simp only [List.reverse_reverse, List.length_reverse, hlen] at h1
-      exact .inl (run_opsP_halt (cx := cx) (X := X) hb ovf_ne_control _ []
-        (Instr.callsub (subLabel f) :: spillAfter slots nArgs crv cov) _ (by simp) h1)
+      exact .inl ⟨ovfF, X.devOvf, run_opsP_halt (cx := cx) (X := X) hb ovf_ne_control _ []
+        (Instr.callsub (subLabel f) :: spillAfter slots nArgs crv cov) _ (by simp) h1⟩
   · -- `after`
-    intro rets w3 hr wm3 hw3 hm3
+    intro rets w3 hr wm3 hw3 _ hm3
     have hm3' : (rets ++ ((slots.map (getSlot w1.scratch)).reverse ++ ((if cov then [] else st) ++ σ))).length
         ≤ maxStack := hm3
     simp only [List.length_append, List.length_reverse, List.length_map] at hm3'
@@ -195,13 +195,13 @@ theorem frame_spill_core {cx : Ctx} {X : MCtx} {f cb k nArgs : Nat} {crv cov : B
           (spillAfter slots nArgs crv cov).length⟩ ⟨rets ++ σ, ic, bcs, { wm3 with scratch := sc'' }⟩)
         (X.st ⟨k, 0⟩ ⟨rets ++ σ, ic, bcs, { wm3 with scratch := sc'' }⟩) := by
       exact .step (step_exit hb (by simp; omega) rfl)
-    refine .inr ⟨{ wm3 with scratch := sc'' }, ⟨fun x => ?_, ?_⟩, ?_⟩
+    refine .inr ⟨{ wm3 with scratch := sc'' }, ⟨fun x hxi => ?_, ?_⟩, trivial, ?_⟩
     · show getSlot (restoreW locals w1 w3).scratch x = getSlot sc'' x
       rw [restoreW_get]
       by_cases hx : x ∈ slots
-      · rw [if_pos ((hset x).mpr hx), hres.1 x hx]
-      · rw [if_neg (fun h => hx ((hset x).mp h)), hres.2 x hx]
-        exact hw3.1 x
+      · rw [if_pos ((hset x hxi).mpr hx), hres.1 x hx]
+      · rw [if_neg (fun h => hx ((hset x hxi).mp h)), hres.2 x hx]
+        exact hw3.1 x hxi
     · show _ = { restoreW locals w1 w3 with scratch := sc'' }
       rw [hw3.2]
       rfl
@@ -211,8 +211,8 @@ theorem frame_spill_core {cx : Ctx} {X : MCtx} {f cb k nArgs : Nat} {crv cov : B
 theorem frame_spill {cx : Ctx} {X : MCtx} {cfg : RCfg} {f : Nat} {ce : Callee} {cb k : Nat}
     {locals : List Var} {st σ : List Val} {ic bcs} {w1 : World}
     (hsp : (cfg.reenters.contains f && !cfg.localSlots.isEmpty) = true)
-    (hnd : cfg.localSlots.Nodup) (h256 : ∀ s ∈ cfg.localSlots, s < 256)
-    (hset : ∀ x, x ∈ locals ↔ x ∈ cfg.localSlots)
+    (hnd : cfg.localSlots.Nodup) (h256 : ∀ s ∈ cfg.localSlots, s < 256) (hsi : ∀ s ∈ cfg.localSlots, s ∉ X.ign)
+    (hset : ∀ x, x ∉ X.ign → (x ∈ locals ↔ x ∈ cfg.localSlots))
     (hlen : st.length = ce.nArgs)
     (hb : Blk X.G cb (callOps cfg f ce) (.next k)) :
     CallFrame cx X cb k f (if ce.hasRet then 1 else 0) locals st σ ic bcs w1 := by
@@ -226,6 +226,6 @@ theorem frame_spill {cx : Ctx} {X : MCtx} {cfg : RCfg} {f : Nat} {ce : Callee} {
     rw [hsp]
     rfl
   rw [hops] at hb
-  exact frame_spill_core hne hnd h256 hset hlen hb
+  exact frame_spill_core hne hnd h256 hsi hset hlen hb
 
 end PyTealV.Proofs.C02Gen
